@@ -41,6 +41,9 @@ def make_peers(tb, rnd, tier):
     add(['diffie-hellman-group14-sha256', 'diffie-hellman-group-exchange-sha256', 'diffie-hellman-group-exchange-sha1'], ['ssh-ed25519'],
         ['aes128-ctr'], ['hmac-sha2-256'], dict(ed), {'diffie-hellman-group-exchange-sha256': 2048, 'diffie-hellman-group-exchange-sha1': 2048},
         banner='Generic_1.0')
+    # an empty name-list is legal on the wire (an AEAD-only server needs no MAC): the tool reads it as the single empty name
+    add(['curve25519-sha256'], ['ssh-ed25519'], ['aes256-gcm@openssh.com', 'chacha20-poly1305@openssh.com'], [''], dict(ed))
+    add(['curve25519-sha256', 'sntrup761x25519-sha512@openssh.com'], ['ssh-ed25519'], [''], ['hmac-sha2-256'], dict(ed))
     # every gss-* spelling of the database
     gss = [n[:-1] + t for n in sorted(tb['db2']['kex']) if n.startswith('gss-') and n.endswith('*')
            for t in (['toWM5Slw5Ew8Mqkay+al2g=='] if tier == 'quick' else ['toWM5Slw5Ew8Mqkay+al2g==', 'A/vxljAEU54gt9a48EiANQ=='])]
@@ -131,7 +134,7 @@ def perturbations(q, rnd):
 
 def server_of(q):
     hk = {t: rating.hostkey_blob(t, (v['size'], v['catype'], v['casize'])) for t, v in q['hks'].items() if t in q['key'] or True}
-    cfg = peers.ServerCfg(banner=('SSH-2.0-' + q['banner']).encode(), kexinit={k: q[k] for k in ('kex', 'key', 'enc', 'mac', 'comp')}, hostkeys=hk)
+    cfg = peers.ServerCfg(banner=('SSH-2.0-' + q['banner']).encode(), kexinit={k: ([] if q[k] == [''] else q[k]) for k in ('kex', 'key', 'enc', 'mac', 'comp')}, hostkeys=hk)
     if q['dhs']:
         cfg['gex'] = {'per_alg': {a: {'style': 'roundup', 'moduli': [b]} for a, b in q['dhs'].items()}}
     return cfg
